@@ -15,7 +15,7 @@ RULE = ("exhaustive part: for each of the ten named groups all elements and all 
         "parameters) and all 720 orders of calling 6 group constructors + all pairs of the ten (cache purity); "
         "generated part: group x conforming cell x uniform rotation x EVERY group element applied beforehand -> "
         "find_uniq_u invariance, orbit membership, idempotence, maximal trace, unchanged score on exact lattice "
-        "g-vectors; find_uniq_hkls on integer hkl |h|<400 likewise; grid_index_parallel.uniq_grain_list: each grain presented in every symmetry-equivalent setting (slightly perturbed) must be recognised as one grain; non-trivial = group order >= 2 and a generic "
+        "g-vectors; find_uniq_hkls on integer hkl |h|<400 likewise; refinegrains.makeuniq on objects in three states (orientations read; grains generated; grains moved per scan as a refinement leaves them): every stored orientation must become the canonical member of its own orbit; grid_index_parallel.uniq_grain_list: each grain presented in every symmetry-equivalent setting (slightly perturbed) must be recognised as one grain; non-trivial = group order >= 2 and a generic "
         "(non-special) rotation; trace ties are counted and only required to return a maximiser")
 ASSUMPTIONS = ["conforming cells are the standard settings used by refinegrains (hexagonal axes gamma=120 for "
                "hexagonal/trigonal, a=b=c alpha=beta=gamma for rhombohedralP, unique axis a/b/c for monoclinic_a/b/c)",
@@ -332,6 +332,87 @@ def check_uniq(case, rec=None):
     return fails
 
 
+# ----------------------------------------------------------------- refinegrains.makeuniq on object histories
+
+@st.composite
+def makeuniqcases(draw):
+    name = draw(st.sampled_from(sorted(GROUPS)))
+    p = draw(cellpars())
+    seed = draw(st.integers(0, 2 ** 31 - 1))
+    ng = draw(st.integers(1, 3))
+    nscan = draw(st.integers(1, 2))
+    hist = draw(st.sampled_from(["read", "generated", "refined", "refined"]))
+    return dict(group=name, p=p, seed=seed, ng=ng, nscan=nscan, hist=hist)
+
+
+def check_makeuniq(case, rec=None):
+    """makeuniq must replace every stored orientation (those read from file and the per-scan grain objects,
+    whatever has happened to them since) by the canonical member of *its own* symmetry orbit."""
+    import io, contextlib
+    from ImageD11 import sym_u, refinegrains, columnfile
+    name = case["group"]
+    ops = [np.asarray(o, float) for o in getattr(sym_u, name)().group]
+    cell = conforming_cell(name, case["p"])
+    B = gens.busing_levy_B(cell)
+    rng = np.random.RandomState(case["seed"] % (2 ** 32))
+    fails = []
+    with contextlib.redirect_stdout(io.StringIO()):
+        o = refinegrains.refinegrains()
+        scans = ["scan%d.flt" % i for i in range(case["nscan"])]
+        for sc in scans:
+            o.scannames.append(sc)
+            o.scandata[sc] = columnfile.colfile_from_dict({"xc": np.arange(4.0), "yc": np.arange(4.0),
+                                                           "omega": np.arange(4.0), "labels": np.zeros(4),
+                                                           "drlv2": np.ones(4)})
+        before = {}
+        for g in range(case["ng"]):
+            U = gens.rotation_from_seed(int(rng.randint(0, 2 ** 31 - 1)))
+            ubi = ops[rng.randint(len(ops))] @ np.linalg.inv(U @ B)      # any setting, as an indexer would give
+            o.grainnames.append(g)
+            o.ubisread[g] = ubi.copy()
+            o.translationsread[g] = rng.uniform(-100, 100, 3) if rng.rand() < 0.7 else None
+            before[("read", g)] = ubi.copy()
+        if case["hist"] != "read":
+            ok, e = guard(o.generate_grains)
+            if not ok:
+                return [exc_failure("generate_grains", e)]
+            for key, gr in o.grains.items():
+                if case["hist"] == "refined":
+                    # what refineubis / refinepositions leave behind: a slightly different matrix per scan
+                    dR = small_rotation(rng, 0.5)
+                    new = (np.eye(3) + rng.uniform(-2e-3, 2e-3, (3, 3))) @ gr.ubi @ dR.T
+                    gr.set_ubi(new)
+                before[key] = np.array(gr.ubi, float).copy()
+        ok, e = guard(o.makeuniq, name)
+    if not ok:
+        return [exc_failure("makeuniq", e)]
+    after = {("read", g): np.asarray(o.ubisread[g], float) for g in o.ubisread}
+    after.update({key: np.asarray(gr.ubi, float) for key, gr in o.grains.items()})
+    if set(after) != set(before):
+        fails.append(fail("makeuniq", "makeuniq changed the set of stored orientations: %s -> %s" %
+                          (sorted(map(str, before)), sorted(map(str, after))), group=name))
+    for key in before:
+        if key not in after:
+            continue
+        b, a = before[key], after[key]
+        scale = np.abs(b).max()
+        orbit = [m @ b for m in ops]
+        if not any(np.abs(a - m).max() < 1e-9 * scale for m in orbit):
+            fails.append(fail("makeuniq", "makeuniq(%s), history '%s': orientation %s is no longer a symmetry "
+                              "equivalent of what was stored before the call" % (name, case["hist"], str(key)),
+                              group=name, hist=case["hist"]))
+            break
+        traces = np.array([np.trace(m) for m in orbit])
+        # sym_u.find_uniq_u maximises the trace of the ubi itself over the orbit (checked in reduce_ubi)
+        if np.trace(a) < traces.max() - 1e-9 * scale:
+            fails.append(fail("makeuniq", "makeuniq(%s), history '%s': orientation %s is not the canonical member "
+                              "of its orbit" % (name, case["hist"], str(key)), group=name, hist=case["hist"]))
+            break
+    if rec is not None:
+        rec.case(case, len(ops) >= 2, ["makeuniq:" + case["hist"]])
+    return fails
+
+
 REG_CELLS = [dict(a=3.0, b=4.0, c=5.0, al=80.0, be=100.0, ga=110.0, tric=[3., 4., 5., 80., 100., 110.])]
 
 
@@ -356,6 +437,7 @@ def run_shard(rec):
     run_cases(rec, "purity", orders, lambda o: check_purity(o, rec))
     hyp_run(rec, "reduce_ubi", ubicases(), lambda c: check_ubi(c, rec), max_examples=300 if quick else 2500)
     hyp_run(rec, "reduce_hkl", hklcases(), lambda c: check_hkl(c, rec), max_examples=150 if quick else 1500)
+    hyp_run(rec, "makeuniq", makeuniqcases(), lambda c: check_makeuniq(c, rec), max_examples=60 if quick else 500)
     hyp_run(rec, "uniq_grains", uniqcases(), lambda c: check_uniq(c, rec), max_examples=40 if quick else 400)
 
 
@@ -366,6 +448,8 @@ def replay(sub, case, rec):
         return check_purity(case, rec)
     if sub == "reduce_hkl":
         return check_hkl(case, rec)
+    if sub == "makeuniq":
+        return check_makeuniq(case, rec)
     if sub == "uniq_grains":
         return check_uniq(case, rec)
     return check_ubi(case, rec)
